@@ -13,7 +13,7 @@ import cidlib
 HOSTILE = ["", " ", "'", '"', "'ab", '"ab', "(", ")", "[", "]", "{", "\\", "-", "--", "...", ",", ";", ":", "#", "$", "?", "!", "`", "*", "+", "%",
            "é", "ß€", "\x00", "\r", "\n", "a\nb", "\t", "NaN", "nan", "Infinity", "-inf", "sNaN", "1e999999", "1e-999999", "99999999999999999999999999",
            "-99999999999999999999", "0x", "0x1g", "1_", "1__0", "007", "1.5", "1,5", "'\\x4'", "'\\u12'", "'\\N{bad}'", "b'a'", "r'a'", "f'{x}'", "'''", "lambda",
-           "None", "a b", "a.b", ".", "..", "....", "1...", "...1", "1...2...3", "5...1", "x" * 300, "١٢٣", " ", "﻿", "%Q", "(?P<n>", "[a-", "a{2,1}", "*a", "\\"]
+           "None", "a b", "a.b", ".", "..", "....", "1...", "...1", "1...2...3", "5...1", "x" * 300, "١٢٣", "²", "1³", "①", "⁵⁶", "9" * 4400, "٣" * 4400, "1٣", "Ⅷ", "½", " ", "﻿", "%Q", "(?P<n>", "[a-", "a{2,1}", "*a", "\\"]
 
 BASE_CIDS = {
     "delimited": [["D", "Format", "Delimited"], ["D", "Header", "1"], ["D", "Encoding", "utf-8"], ["D", "Allowed characters", "32..."],
